@@ -397,6 +397,25 @@ fn run_case(kind: &str, bytes: &[u8], m128: bool, fault: Fault, chunk: usize, eo
                     break;
                 }
             }
+            // ... and a program that talks to every device the file may have set up: it reads the AY data port and writes
+            // it back, reads the keyboard, the Kempston joystick and the mouse ports, writes the ULA port, in a loop
+            if err.is_none() && kind != "vtx" {
+                const PROBE: [u8; 28] = [
+                    0xF3, 0x01, 0xFD, 0xFF, 0xED, 0x78, 0x06, 0xBF, 0xED, 0x79, 0x01, 0xFE, 0x7F, 0xED, 0x78, 0xED, 0x79, 0xDB, 0x1F,
+                    0x01, 0xDF, 0xFB, 0xED, 0x78, 0x04, 0x04, 0x18, 0xE5,
+                ];
+                poke_bytes(&mut emu, 0x8000, &PROBE);
+                let c = emu.verif_cpu();
+                c.regs.set_pc(0x8000);
+                c.regs.set_sp(0xBFF0);
+                c.halted = false;
+                for _ in 0..3 {
+                    if let Err(e) = emu.emulate_frames(std::time::Duration::from_secs(100)) {
+                        err = Some(format!("{e:?}"));
+                        break;
+                    }
+                }
+            }
             err
         });
         match r {
